@@ -37,8 +37,8 @@ RULE = (
 ASSUMPTIONS = [
     "VHDL legality = static semantics implemented by cv.vhdl (LRM rule per S-* id; calibrated on 254 upstream benches)",
     "names are ASCII identifiers [A-Za-z_][A-Za-z0-9_]* (what a Python attribute / variable / name= argument naturally is)",
-    "reserved words: union of IEEE 1076-1993 and 1076-2008 lists; a 2008-only word used as identifier is reported with "
-    "word=vhdl2008 (legal for a 1993 tool, illegal for a 2008 tool)",
+    "reserved words: IEEE 1076-1993 list; a word reserved only since 1076-2008 used as identifier is legal for a 1993 "
+    "tool (union-of-editions policy) and only counted (label only_2008_reserved)",
     "user-reserved names (additional_reserved_names / reserved_names) only vary the uniquifier's input: their effect is "
     "not specified by the property and is only counted",
 ]
@@ -494,6 +494,11 @@ def check(case):
         return out
     out.nontrivial = interesting
     out.counters["vhdl_lines"] = vhdl.count("\n")
+    n2008 = len({nm.lower() for kind, nm, _line in getattr(d, "notes", []) if kind == "reserved_2008_only"})
+    if n2008:
+        # legal VHDL-93, illegal VHDL-2008: not a violation under the union-of-editions policy, only counted
+        out.labels.append("only_2008_reserved")
+        out.counters["only_2008_reserved_identifiers"] = n2008
     if gen == "A" and case.get("opt"):
         # user-reserved names: unspecified by the property; only count whether one is declared verbatim
         decl = {m.group(1).lower() for m in re.finditer(rf"^\s*(?:signal|variable)\s+({_ID})\s*:", vhdl, re.M)}
